@@ -31,11 +31,32 @@ Definition escape_char (c : ascii) : string :=
     String "\" (String "u" (String "0" (String "0" (String (hex_digit (byte c / 16)) (String (hex_digit (byte c mod 16)) "")))))
   else String c "".
 
+(* U+FEFF (bytes EF BB BF): the engine's scanner refuses a raw byte-order mark anywhere but at the very beginning of the module
+   ("illegal byte-order mark"), inside string literals too; regoStringContent writes it as the escape \ufeff *)
+Definition is_bom (a b c : ascii) : bool := Nat.eqb (byte a) 239 && Nat.eqb (byte b) 187 && Nat.eqb (byte c) 191.
+Definition bom_escape : string := "\ufeff".
 Fixpoint escape (s : string) : string :=
   match s with
   | EmptyString => EmptyString
-  | String c s' => escape_char c ++ escape s'
+  | String c1 r1 =>
+      match r1 with
+      | String c2 (String c3 r3) => if is_bom c1 c2 c3 then bom_escape ++ escape r3 else escape_char c1 ++ escape r1
+      | _ => escape_char c1 ++ escape r1
+      end
   end.
+Definition starts_with_bom (s : string) : bool :=
+  match s with
+  | String a r =>
+      if Nat.eqb (byte a) 239 then
+        match r with
+        | String b r' => if Nat.eqb (byte b) 187 then match r' with String c _ => Nat.eqb (byte c) 191 | EmptyString => false end else false
+        | EmptyString => false
+        end
+      else false
+  | EmptyString => false
+  end.
+Fixpoint has_bom (s : string) : bool :=
+  match s with EmptyString => false | String _ r => starts_with_bom s || has_bom r end.
 
 (* the engine's scanner: from just after an opening double quote to the closing one; result: the
    denoted text and the rest of the input after the closing quote.  Raw control characters, a raw end of
@@ -47,7 +68,8 @@ Fixpoint scan_literal (fuel : nat) (s : string) : option (string * string) :=
     match s with
     | EmptyString => None
     | String c r =>
-      if Ascii.eqb c """" then Some ("", r)
+      if starts_with_bom s then None            (* illegal byte-order mark *)
+      else if Ascii.eqb c """" then Some ("", r)
       else if Ascii.eqb c "\" then
         match r with
         | String e r' =>
@@ -66,6 +88,11 @@ Fixpoint scan_literal (fuel : nat) (s : string) : option (string * string) :=
             | String h1 (String h2 (String h3 (String h4 r''))) =>
               match hex_value h1, hex_value h2, hex_value h3, hex_value h4 with
               | Some 0, Some 0, Some a, Some b => if Nat.ltb (a * 16 + b) 128 then continue (chr (a * 16 + b)) r'' else None
+              | Some 15, Some 14, Some 15, Some 15 =>       (* U+FEFF as UTF-8 *)
+                  match scan_literal fuel r'' with
+                  | Some (t, z) => Some (String (chr 239) (String (chr 187) (String (chr 191) t)), z)
+                  | None => None
+                  end
               | _, _, _, _ => None      (* code points >= 0x80 are never produced by [escape]; not modelled *)
               end
             | _ => None
@@ -215,13 +242,14 @@ Definition ident_char (c : ascii) : bool :=
 Fixpoint has_backtick (s : string) : bool :=
   match s with EmptyString => false | String c r => Ascii.eqb c "`" || has_backtick r end.
 Definition pattern_literal (p : string) : string :=
-  if has_backtick p then String """" (escape p ++ """") else String "`" (p ++ "`").
+  if has_backtick p || has_bom p then String """" (escape p ++ """") else String "`" (p ++ "`").
 
 (* the engine's two string syntaxes: a raw string runs to the next backtick, verbatim; a quoted one is scanned as above *)
 Fixpoint scan_raw (s : string) : option (string * string) :=
   match s with
   | EmptyString => None
-  | String c r => if Ascii.eqb c "`" then Some ("", r)
+  | String c r => if starts_with_bom s then None
+                  else if Ascii.eqb c "`" then Some ("", r)
                   else match scan_raw r with Some (t, z) => Some (String c t, z) | None => None end
   end.
 Definition scan_string_term (fuel : nat) (s : string) : option (string * string) :=
